@@ -190,6 +190,20 @@ def run(ck: Check):
         if lib_path and bits != 8:     # loading a 64-bit library as 8-bit is a caller error the library cannot see
             got = outcome(lambda: CompiledLogicNet.load(lib_path, (4,), 2, bits))
             record("compiler-load", {"num_bits": bits, "bad": "bits"}, bits in (8, 16, 32, 64), got)
+    # a group sum over a width it does not divide must be refused by the compiler whatever produces that width
+    from harness import nets as hn
+    import numpy as np
+    for shp, layers, k in (((1, 4, 4), [("conv", dict(K=2, depth=1, rf=2))], 4), ((1, 4, 4), [("conv", dict(K=2, depth=1, rf=2))], 9),
+                           ((1, 4, 4), [("conv", dict(K=2, depth=1, rf=2)), ("pool", dict(k=2, s=1))], 3),
+                           ((1, 2, 2, 3), [("conv", dict(K=3, depth=1, rf=2))], 2),
+                           ((1, 4, 4), [("conv", dict(K=2, depth=1, rf=2)), ("flatten",), ("dense", 7)], 2),
+                           ((1, 4, 4), [("conv", dict(K=2, depth=1, rf=2)), ("flatten",), ("dense", 6)], 3)):
+        if not any(l[0] == "flatten" for l in layers):
+            layers = layers + [("flatten",)]
+        mdl = hn.make_custom(rng, shp, layers + [("gs", k)])
+        feat = len(hn.eval_spec(dict(hn.extract(mdl), k=None), [0] * int(np.prod(shp))))
+        got = outcome(lambda: CompiledLogicNet(mdl, num_bits=8))
+        record("compiler-groupsum-width", {"features": feat, "k": k, "dims": len(shp) - 1, "bad": "divisible"}, feat % k == 0, got)
     got = outcome(lambda: CompiledLogicNet(torch.nn.Sequential(torch.nn.Flatten(), GroupSum(1, device="cpu")), num_bits=8))
     record("compiler-ctor", {"bad": "no-logic-layer"}, False, got)
     comp_rows.append((8, "gcc", 0, got[0] == "returned"))
